@@ -447,11 +447,40 @@ fn main() {
     );
     chk.absorb(stats);
 
+    // ---- (4) glued neighbours: every base / boundary document with the separator removed at one
+    // gap (every gap in turn). Whether two tokens may touch is a lexical question (`0b`, `1.5e`, `a1`
+    // vs `a(`); the reference lexer + recogniser decide, and apollo must agree.
+    let mut glue_cases: Vec<String> = Vec::new();
+    for (_, text) in &docs {
+        let toks: Vec<&str> = text.split(' ').collect();
+        for gap in 1..toks.len() {
+            let mut s = toks[..gap].join(" ");
+            s.push_str(&toks[gap..].join(" "));
+            glue_cases.push(s);
+        }
+    }
+    glue_cases.sort();
+    glue_cases.dedup();
+    let n = glue_cases.len() as u64;
+    let stats = vcore::par_sweep(n, 256, |i, st| {
+        let s = &glue_cases[i as usize];
+        if i == n / 2 {
+            st.sample(json!({"space": "glued-neighbours", "input": s}));
+        }
+        check_text("glued-neighbours", s, true, open, st);
+    });
+    println!("space glued-neighbours: inputs={n}");
+    bounds.insert(
+        "glued_neighbours".into(),
+        json!({"edit": "the single space between two neighbouring tokens removed", "at": "every gap of every base and boundary document", "inputs": n}),
+    );
+    chk.absorb(stats);
+
     chk.bounds = Value::Object(bounds);
     chk.rule = "every token sequence over T (joined by single spaces) up to max_len, in length-then-lexicographic \
                 order; every distinct token sequence within k single-token edits of each base document (grammatical, \
                 together using every production) and each boundary document (DESIGN A.2 fine points, mostly one \
-                step outside the grammar); each of these documents with one ignored token (Comma, Comment, BOM) inserted at each gap; \
+                step outside the grammar); each of these documents with one ignored token (Comma, Comment, BOM) inserted at each gap, and with the separator removed at each gap; \
                 non-trivial = the reference recogniser consumed at least one token before its verdict \
                 (accepted, or rejected at significant-token index >= 1)"
         .into();
